@@ -55,6 +55,9 @@ pub enum Op {
     ShutdownSeq,
     /// take a crash snapshot of the tree now (between commands)
     Snap,
+    /// the process is killed here: the tree as it is now is what the next lifetime finds (writes made
+    /// while the process is torn down - user-space buffers flushed by destructors - are discarded)
+    KillPoint,
     /// one input line on connection `conn` through the TCP listener's authentication gate,
     /// parse and dispatch; `{TOKEN:n}` is replaced by the last session token issued on connection n
     Serve { conn: usize, line: String },
@@ -532,6 +535,16 @@ async fn interpret(
                     Err(_) => st.blocked = true,
                 }
                 sys.barrier().await;
+            }
+            Op::KillPoint => {
+                let to = PathBuf::from(&job.snap_dir).join("killpoint");
+                let root = root.to_path_buf();
+                interpose::fs_quiet(|| {
+                    let _ = std::fs::remove_dir_all(&to);
+                    if let Err(e) = copy_tree(&root, &to) {
+                        st.note = format!("killpoint copy failed: {e}");
+                    }
+                });
             }
             Op::Snap => {
                 let g = interpose::fs_quiet(|| {
